@@ -74,6 +74,13 @@ StepNode ==
      /\ IF Line.fork THEN UNCHANGED <<R, T, prevO, rej>>
         ELSE R' = R2 /\ prevO' = Line.obs /\ UNCHANGED <<T, rej>>
 
+\* node attribute setters (update_node_attr, update_node_attr_from, dn.set_node_attributes)
+StepSetAttr ==
+  /\ Line.op = "set_attr"
+  /\ LET R2 == IF Line.res = "ok" THEN RefSetAttr(R, ToSet(Line.ns), Line.a) ELSE R IN
+     /\ fails' = fails \cup Judge(R, R2, T, Line, rej)
+     /\ R' = R2 /\ prevO' = Line.obs /\ UNCHANGED <<T, rej>>
+
 StepObserve ==
   /\ Line.op = "observe"
   /\ fails' = fails \cup Judge(R, R, T, Line, rej)
@@ -133,7 +140,7 @@ StepPaths ==
   /\ UNCHANGED <<R, T, rej, prevO>>
 
 Step == /\ l <= Len(Traces[tid])
-        /\ (StepNew \/ StepAdd \/ StepNode \/ StepObserve \/ StepBattery \/ StepDerive \/ StepParse \/ StepPaths \/ StepStats \/ StepGuard \/ StepConf)
+        /\ (StepNew \/ StepAdd \/ StepNode \/ StepSetAttr \/ StepObserve \/ StepBattery \/ StepDerive \/ StepParse \/ StepPaths \/ StepStats \/ StepGuard \/ StepConf)
         /\ l' = l + 1
         /\ UNCHANGED tid
 
